@@ -74,6 +74,16 @@ using overflow_checker = conditional_t<
 struct to_integer_options {
     bool skip_whitespace = true;
     bool check_overflow  = true;
+
+    /// Accept an optional leading '+' (strtol, atoi, stoi, ...)
+    bool allow_plus_sign = false;
+};
+
+/// \brief Grammar of the C library functions strtol, strtoul, atoi, ... (ISO C 7.22.1.4)
+inline constexpr auto to_integer_c_options = to_integer_options{
+    .skip_whitespace = true,
+    .check_overflow  = true,
+    .allow_plus_sign = true,
 };
 
 enum struct to_integer_error : unsigned char {
@@ -117,17 +127,16 @@ template <integral Int, to_integer_options Options = to_integer_options{}>
         return makeError(to_integer_error::invalid_input);
     }
 
-    // optional minus for signed types
-    [[maybe_unused]] auto positive = true;
-    if constexpr (signed_integral<Int>) {
-        if (str[pos] == '-') {
-            positive = false;
-            if (++pos == length) {
-                // minus "-" was last character in string
-                return makeError(to_integer_error::invalid_input);
-            }
+    // optional minus for signed types, optional plus
+    auto const hasMinus = signed_integral<Int> and str[pos] == '-';
+    auto const hasPlus  = Options.allow_plus_sign and str[pos] == '+';
+    if (hasMinus or hasPlus) {
+        if (++pos == length) {
+            // sign was last character in string
+            return makeError(to_integer_error::invalid_input);
         }
     }
+    [[maybe_unused]] auto const positive = not hasMinus;
 
     // first digit
     auto value = [&] {
